@@ -84,7 +84,9 @@ def build(e, unknown):
             return N(f, [build(args[0], unknown)])
         if f in ('map', 'map_res', 'map_opt', 'value', 'verify'):
             inner = args[0] if f != 'value' else args[1]
-            return N('map', [build(inner, unknown)])
+            n = N('map', [build(inner, unknown)])
+            n.mapper = (f, args[1] if f != 'value' else args[0]) if len(args) > 1 else None
+            return n
         if f in SEQ:
             items = []
             for a in args:
